@@ -103,8 +103,9 @@ pub fn thick_claims_al(a: Point, b: Point, w: u32, al: StrokeAlignment, q: Point
         check!(in_rect(&styled.bounding_box(), q), "C02.inside_bbox");
     }
     // native == default == pixels (Line draws through draw_iter; regression guard)
-    let big = Rectangle::new(Point::new(-1000, -1000), Size::new(2000, 2000));
-    let mut n = NProbe::<Gray8>::new(q, big);
+    // the target reports an ARBITRARY bounding box around the probe point: a stroke pixel inside the
+    // target must be drawn wherever the thin line itself lies (e.g. just outside the target)
+    let mut n = NProbe::<Gray8>::new(q, sym_bbox(q));
     styled.draw(&mut n).unwrap();
     check!(n.writes == writes, "C01.pixels_eq_draw");
     // the claims above are about the stroked line as it is DRAWN as well
